@@ -47,6 +47,13 @@ def pi_multiple(x):
     return None
 
 
+def float_fraction(x):
+    """the rational a float literal stands for: its shortest decimal representation (repr), e.g. 1e-8 is
+    1/10**8 and 0.1 is 1/10 -- not the 53-bit binary neighbour.  Within A-REAL (rounding is ignored anyway)
+    and it keeps solver coefficients small."""
+    return Fraction(repr(float(x)))
+
+
 def toz(x):
     """lift a value to a z3 Real expression (floats: exact binary rationals; pi multiples symbolic)"""
     if isinstance(x, Term):
@@ -66,7 +73,7 @@ def toz(x):
         if x == math.e:
             E.used_e = True
             return EUL
-        return _rat(Fraction(x))
+        return _rat(float_fraction(x))
     if isinstance(x, Fraction):
         return _rat(x)
     if isinstance(x, z3.ExprRef):
@@ -138,14 +145,10 @@ class Engine:
 
     def feasible(self, extra):
         t = time.time()
-        s = z3.Solver()
-        s.set('timeout', self.feas_timeout)
-        s.add(*self.hyps())
-        s.add(extra)
-        r = guarded_check(s, self.feas_timeout)
+        v, _ = hard_check(self.hyps(), extra, self.feas_timeout)
         self.stats['feas_checks'] += 1
         self.stats['feas_s'] += time.time() - t
-        return r != z3.unsat
+        return v != 'unsat'
 
     def decide(self, cond):
         """cond: z3 BoolRef; returns the Python bool of the branch taken on this path"""
@@ -686,38 +689,110 @@ def to_smt2(hyps, neg_goal):
     return s.to_smt2()
 
 
+class DictModel:
+    """values of the requested expressions in a model found by a (forked) solver process"""
+    def __init__(self, values):
+        self.values = values
+
+    def get(self, name, default=None):
+        return self.values.get(name, default)
+
+
+def _value_of(m, zexpr):
+    v = m.eval(zexpr, model_completion=True)
+    if z3.is_rational_value(v):
+        return float(Fraction(v.numerator_as_long(), v.denominator_as_long()))
+    if z3.is_algebraic_value(v):
+        a = v.approx(30)
+        return float(Fraction(a.numerator_as_long(), a.denominator_as_long()))
+    v = z3.simplify(v)
+    if z3.is_rational_value(v):
+        return float(Fraction(v.numerator_as_long(), v.denominator_as_long()))
+    raise ValueError(f"no numeric value for {zexpr}: {v}")
+
+
+def hard_check(hyps, extra, timeout_ms, tactic=None, seed=0, evals=None):
+    """one solver query in a forked child with a hard wall-clock limit (z3's own timeout is not honoured inside
+    long big-number operations of nlsat).  Returns (verdict, DictModel|None)."""
+    import select, signal, json
+    r, w = os.pipe()
+    pid = os.fork()
+    if pid == 0:
+        try:
+            os.close(r)
+            s = z3.Tactic(tactic).solver() if tactic else z3.Solver()
+            s.set('timeout', int(timeout_ms))
+            if not tactic:
+                s.set('random_seed', seed)
+            s.add(*hyps)
+            if extra is not None:
+                s.add(extra)
+            try:
+                v = str(s.check())
+            except z3.Z3Exception:
+                v = 'unknown'
+            out = dict(v=v)
+            if v == 'sat' and evals:
+                m = s.model()
+                vals = {}
+                for k, e in evals.items():
+                    try:
+                        if isinstance(e, list):
+                            vals[k] = [_value_of(m, x) for x in e]
+                        else:
+                            vals[k] = _value_of(m, e)
+                    except Exception:
+                        vals[k] = None
+                out['m'] = vals
+            os.write(w, json.dumps(out).encode())
+        except BaseException:
+            pass
+        finally:
+            os._exit(0)
+    os.close(w)
+    buf = b''
+    deadline = time.time() + timeout_ms / 1000.0 + 1.5
+    try:
+        while True:
+            left = deadline - time.time()
+            if left <= 0:
+                break
+            rd, _, _ = select.select([r], [], [], left)
+            if not rd:
+                break
+            chunk = os.read(r, 1 << 16)
+            if not chunk:
+                break
+            buf += chunk
+    finally:
+        os.close(r)
+        try:
+            os.kill(pid, signal.SIGKILL)
+        except ProcessLookupError:
+            pass
+        os.waitpid(pid, 0)
+    if not buf:
+        return 'unknown', None
+    try:
+        out = json.loads(buf.decode())
+    except ValueError:
+        return 'unknown', None
+    return out['v'], (DictModel(out['m']) if 'm' in out else None)
+
+
 def guarded_check(s, timeout_ms):
-    """s.check() with a watchdog thread that interrupts z3 if it overruns its own timeout"""
-    import threading
-    wd = threading.Timer(timeout_ms / 1000.0 + 2.0, lambda: z3.main_ctx().interrupt())
-    wd.daemon = True
-    wd.start()
+    """in-process check (only for tiny queries)"""
     try:
         return s.check()
     except z3.Z3Exception:
         return z3.unknown
-    finally:
-        wd.cancel()
 
 
-def z3_check(hyps, neg_goal, timeout_ms, tactic=None, seed=0):
-    """returns ('unsat'|'sat'|'unknown', model|None, seconds); a watchdog interrupts z3 if it overruns"""
-    import threading
+def z3_check(hyps, neg_goal, timeout_ms, tactic=None, seed=0, evals=None):
+    """returns ('unsat'|'sat'|'unknown', DictModel|None, seconds)"""
     t = time.time()
-    if tactic:
-        s = z3.Tactic(tactic).solver()
-    else:
-        s = z3.Solver()
-    s.set('timeout', int(timeout_ms))
-    if not tactic:
-        s.set('random_seed', seed)
-    s.add(*hyps)
-    s.add(neg_goal)
-    r = guarded_check(s, timeout_ms)
-    m = None
-    if r == z3.sat:
-        m = s.model()
-    return str(r), m, time.time() - t
+    v, m = hard_check(hyps, neg_goal, timeout_ms, tactic=tactic, seed=seed, evals=evals)
+    return v, m, time.time() - t
 
 
 def cvc5_check(hyps, neg_goal, timeout_ms):
